@@ -80,7 +80,7 @@ func main() {
 }
 
 // expectedSilent: seeded changes that are documented as outside the claimed clauses (DESIGN.md §9).
-var expectedSilent = map[string]int{"C12": 2}
+var expectedSilent = map[string]int{"C12": 1}
 
 // overlayFromPatch applies a unified diff to copies of the files it touches
 // (in a scratch directory that is removed again) and returns the patched
